@@ -145,8 +145,22 @@ def assignScratchSlotsToSubroutines(
             )
             raise TealInternalError(msg) from errors[0]
 
+    # Slots are numbered in the order of their ids. Distinct slots can carry the same id, because the
+    # id counter is rewound (Router.compile_program after every build, subroutine probing) while
+    # cached subroutine declarations keep their slots. Break such ties by the order in which the
+    # slots first appear in the program instead of by set iteration order, which differs from one
+    # compilation to the next and depends on PYTHONHASHSEED.
+    firstAppearance: Dict[ScratchSlot, int] = dict()
+    for start in subroutineBlocks.values():
+        for block in TealBlock.Iterate(start):
+            for op in block.ops:
+                for slot in op.getSlots():
+                    firstAppearance.setdefault(slot, len(firstAppearance))
+
     nextSlotIndex = 0
-    for slot in sorted(allSlots, key=lambda slot: slot.id):
+    for slot in sorted(
+        allSlots, key=lambda slot: (slot.id, firstAppearance.get(slot, 0))
+    ):
         # Find next vacant slot that compiler can assign to
         while nextSlotIndex in slotIds:
             nextSlotIndex += 1
